@@ -29,7 +29,7 @@ Findings of this check (the first three are repaired in /repo since; the fourth 
   * C07.set_header_name_not_token: set_header does not validate names (NUL / ':' on the wire, late failure).
   * C07.nul_on_wire.lowlevel: write_headers' last-line guard lets NUL through.
   * C07.name_case_folded_to_ascii.lowlevel (repaired 85ce3b7): HTTPHeaders()["\u017fet-Cookie"] = v was written as "Set-Cookie: v".
-  * C07.rejected_redirect_leaves_status (open): a refused redirect() leaves "302 Found" on the following response.
+  * C07.rejected_redirect_leaves_status (repaired be24d0e): a refused redirect() left "302 Found" on the following response.
 With the three proposed patches applied to a scratch copy the check is quiet without any exclusion.
 
 Sensitivity (scratch copies, quick tier, seed 1):
@@ -63,6 +63,13 @@ Sensitivity (scratch copies, quick tier, seed 1):
     deterministic programs "accepted call(s), rejected call on the same name" + 600 random ones.
     The model exposed one real partial effect on the current tree: a rejected redirect() leaves its 302 status behind
     (open finding C07.rejected_redirect_leaves_status, findings_inbox/C07-rejected-redirect-leaves-status.md).
+  * httputil.py HTTPHeaders.__setitem__ stores the combined-value cache under the RAW name: set_header("Vary", A) then
+    set_header("vary", B) with compress_response=True puts "A, Accept-Encoding" on the wire (the gzip transform reads
+    headers["Vary"] back through the stale cache) -> caught at seeds 1,2,3 (prog_header_lines; parts "prog_gzip" and
+    "prog_random").  Missed before: programs never combined two spellings of one name with a reader of the combined
+    value.  New program shapes GZIP200 / GZIPSTREAM (Application(compress_response=True), Accept-Encoding: gzip,
+    1500-byte body, body compared after gunzip, Vary modelled as "<program's value>, Accept-Encoding"); names in the
+    spellings Vary / vary / VARY / vArY (also X-A / x-a, Cache-Control / cache-control); 234 deterministic programs.
 Not implemented from DESIGN: `expires` as an injection position (the documented types float/tuple/datetime
 carry no text); header values as int/datetime (no payload can be carried).
 """
@@ -718,13 +725,58 @@ class ProgHandler(tornado.web.RequestHandler):
             self.write(b"BO")
             self.flush()
             self.write(b"DY")
+        elif c["shape"] == "GZIP200":
+            self.write(BIG_BODY)
+        elif c["shape"] == "GZIPSTREAM":
+            self.write(BIG_BODY[:700])
+            self.flush()
+            self.write(BIG_BODY[700:])
         else:
             self.write(b"BODY")
 
     head = get
 
 
+BIG_BODY = b"BODY" * 375      # above the gzip transform's minimum length
 PROG_APP = tornado.web.Application([(r"/.*", ProgHandler)])
+# compress_response=True: the gzip output transform READS headers back (headers["Vary"] += ...), i.e. it goes through
+# the combined-value view of the header map, not through the list the serializer uses
+PROG_APP_GZ = tornado.web.Application([(r"/.*", ProgHandler)], compress_response=True)
+GZ_SHAPES = ("GZIP200", "GZIPSTREAM")
+_PROG_BASE = {}
+
+
+def run_prog_request(shape, ops):
+    PROG.clear()
+    PROG.update(ops=ops, shape=shape, raised=[])
+    method = "HEAD" if shape == "HEAD200" else "GET"
+    gz = shape in GZ_SHAPES
+    req = wu.request_bytes(method, "/", [("Accept-Encoding", "gzip")] if gz else [])
+    o = wu.run_request(PROG_APP_GZ if gz else PROG_APP, req, method)
+    return o, list(PROG["raised"]), method
+
+
+def decoded_body(resp):
+    if (b"content-encoding", b"gzip") in resp.headers:
+        from vlib import httpref
+        return httpref.gunzip_strict(resp.body)
+    return resp.body
+
+
+def prog_baseline(kind, shape):
+    """(code, reason, header list, decoded body) of the program handler with no header call (kind 'plain') or
+    with only redirect('/base') (kind 'redirect'), per shape; computed once."""
+    key = (kind, shape)
+    if key not in _PROG_BASE:
+        o, raised, _ = run_prog_request(shape, [] if kind == "plain" else [("redirect", "/base")])
+        if o.kind != "response" or o.strict is None or any(r is not None for r in raised):
+            raise RuntimeError("program baseline %r failed: %r %r" % (key, o.kind, o.strict_error))
+        hl = header_list(o.resp)
+        if kind == "redirect":
+            hl.remove((b"location", b"/base"))
+        _PROG_BASE[key] = (o.resp.code, o.resp.reason, hl, decoded_body(o.resp))
+    code, reason, hl, body = _PROG_BASE[key]
+    return code, reason, list(hl), body
 
 
 def _wire_value(v):
@@ -734,11 +786,7 @@ def _wire_value(v):
 
 def evaluate_prog(shape, ops):
     labels = {"prog", "shape:" + shape}
-    PROG.clear()
-    PROG.update(ops=ops, shape=shape, raised=[])
-    method = "HEAD" if shape == "HEAD200" else "GET"
-    o = wu.run_request(PROG_APP, wu.request_bytes(method, "/"), method)
-    raised = list(PROG["raised"])
+    o, raised, method = run_prog_request(shape, ops)
     detail = {"shape": shape, "ops": ops, "raised": [repr(r) for r in raised], "outcome": o.kind, "wire": o.wire[:700]}
 
     def problem(clause, extra=None, sig=None):
@@ -795,13 +843,22 @@ def evaluate_prog(shape, ops):
         elif kind == "redirect":
             redirected = op[1]
             break
-    code, base_reason, base, body = baseline("redirect" if redirected is not None else "plain", shape)
-    want = list(base)
+    code, base_reason, base, body = prog_baseline("redirect" if redirected is not None else "plain", shape)
+    gzipped = shape in GZ_SHAPES     # the transform adjusts Vary on every response it sees, compressed or not
+    # the gzip transform appends ", Accept-Encoding" to whatever Vary value the program produced (or sets it)
+    want = [hv for hv in base if not (gzipped and hv[0] == b"vary")]
     for kind, lname, value in edits:
         if kind in ("set", "clear"):
             want = [hv for hv in want if hv[0] != lname]
         if kind in ("set", "add"):
             want.append((lname, value))
+    if gzipped:
+        varies = [v for n, v in want if n == b"vary"]
+        want = [hv for hv in want if hv[0] != b"vary"]
+        want.append((b"vary", b",".join(varies) + b", Accept-Encoding" if varies else b"Accept-Encoding"))
+        labels.add("gzip_transform_reads_headers")
+        if len({op[1] for op in ops if op[0] in ("set", "add", "clear") and ascii_lower(op[1]) == "vary"}) >= 2:
+            labels.add("vary_two_spellings_gzip")
     if redirected is not None:
         want = [hv for hv in want if hv[0] != b"location"] + [(b"location", redirected.encode("utf-8").strip(b" \t"))]
     # ---- status line
@@ -820,8 +877,12 @@ def evaluate_prog(shape, ops):
         names = {hv[0] for hv in missing + extra}
         clause = "C07.rejected_call_changed_state" if names & rejected_names else "C07.prog_header_lines"
         return problem(clause, {"missing": missing, "extra": extra})
-    if r.body != body:
-        return problem("C07.body_changed", {"body": r.body[:200]})
+    try:
+        got_body = decoded_body(r)
+    except Exception as e:
+        return problem("C07.body_changed", {"gunzip": repr(e)})
+    if got_body != body:
+        return problem("C07.body_changed", {"body": got_body[:200]})
     return labels, None
 
 
@@ -835,7 +896,9 @@ def run_prog(ctx, case):
         ctx.fail(clause, detail, sig=sig)
 
 
-PROG_NAMES = ["X-A", "x-a", "X-Frame-Options", "Content-Type", "Cache-Control", "Server", "Set-Cookie"]
+PROG_NAMES = ["X-A", "x-a", "X-Frame-Options", "Content-Type", "Cache-Control", "Server", "Set-Cookie", "Vary", "vary", "VARY"]
+# in the gzip shapes Content-Type decides whether the transform applies at all: leave it alone there
+GZ_NAMES = ["Vary", "vary", "VARY", "vArY", "X-A", "x-a", "Cache-Control", "cache-control"]
 GOOD_VALUES = ["v1", "text/plain", "DENY", "a, b", "no-store", "x=1; Path=/"]
 BAD_VALUES = ["x\r\nInjected: 1", "x\nInjected: 1", "x\0y", "\u2603", "a\x7fb", "x\x0by", b"y\r\nInjected: 1", b"\x00", "\u010a"]
 GOOD_REASONS = ["OK", "Fine by me"]
@@ -865,6 +928,31 @@ def prog_cases():
             yield ("prog", shape, [("status", bad), ("status", "OK"), ("set", "X-A", "v1")])
 
 
+def gz_prog_cases():
+    """Two spellings of one name in one program + a reader of the combined value (the gzip transform)."""
+    spell = ["Vary", "vary", "VARY", "vArY"]
+    for shape in GZ_SHAPES:
+        for n1 in spell:
+            for n2 in spell:
+                yield ("prog", shape, [("set", n1, "Origin"), ("set", n2, "Cookie")])
+                yield ("prog", shape, [("add", n1, "Origin"), ("set", n2, "Cookie")])
+                yield ("prog", shape, [("set", n1, "Origin"), ("add", n2, "Cookie")])
+                yield ("prog", shape, [("set", n1, "Origin"), ("clear", n2)])
+                yield ("prog", shape, [("set", n1, "Origin"), ("clear", n2), ("set", n1, "Cookie")])
+                yield ("prog", shape, [("set", n1, "Origin"), ("set", n2, "x\r\nInjected: 1")])
+                yield ("prog", shape, [("set", n1, "Origin"), ("set", n2, "Cookie"), ("set", n1, "User-Agent")])
+        yield ("prog", shape, [])
+        yield ("prog", shape, [("set", "X-A", "v1"), ("set", "x-a", "v2"), ("add", "Cache-Control", "no-store")])
+        yield ("prog", shape, [("set", "Vary", "Origin"), ("redirect", "/ok")])
+
+
+_gz_op = st.one_of(
+    st.tuples(st.sampled_from(["set", "set", "add"]), st.sampled_from(GZ_NAMES),
+              st.sampled_from(["Origin", "Cookie", "User-Agent", "no-store", "x\r\nInjected: 1", "\u2603"])),
+    st.tuples(st.just("clear"), st.sampled_from(GZ_NAMES)),
+)
+gz_prog_s = st.tuples(st.just("prog"), st.sampled_from(GZ_SHAPES), st.lists(_gz_op, min_size=2, max_size=5))
+
 _prog_value = st.one_of(st.sampled_from(GOOD_VALUES), st.sampled_from(GOOD_VALUES), st.sampled_from(BAD_VALUES))
 _prog_op = st.one_of(
     st.tuples(st.just("set"), st.sampled_from(PROG_NAMES), _prog_value),
@@ -877,7 +965,7 @@ _prog_op = st.one_of(
 prog_s = st.tuples(st.just("prog"), st.sampled_from(["GET200", "GET200", "HEAD200", "STREAM200"]),
                    st.lists(_prog_op, min_size=2, max_size=5))
 
-PARTS = {"main": run_case, "sweep": run_case, "prog": run_prog, "prog_random": run_prog}
+PARTS = {"main": run_case, "sweep": run_case, "prog": run_prog, "prog_gzip": run_prog, "prog_random": run_prog}
 
 
 def main(ctx):
@@ -885,4 +973,5 @@ def main(ctx):
     ctx.explore(case_s, run_case, ctx.n(1500, 50000), name="main")
     ctx.enumerate(sweep_cases(ctx.thorough), run_case, name="sweep")
     ctx.enumerate(prog_cases(), run_prog, name="prog")
-    ctx.explore(prog_s, run_prog, ctx.n(600, 20000), name="prog_random")
+    ctx.enumerate(gz_prog_cases(), run_prog, name="prog_gzip")
+    ctx.explore(st.one_of(prog_s, prog_s, gz_prog_s), run_prog, ctx.n(600, 20000), name="prog_random")
